@@ -210,7 +210,7 @@ def allPairs (k : Nat) : List (Nat × Nat) :=
   (List.range k).flatMap fun i => ((List.range k).filter fun j => decide (i < j)).map fun j => (i, j)
 
 /-- the pairs of one chromosome, in order, until one dies -/
-def runPairs (fix3 fix45 : Bool) (o : Opts) (tabs : List (List Row)) (sidx : List Nat) (names : List String) (het0 : Nat) :
+def runPairs (fix3 fix45 fix46 : Bool) (o : Opts) (tabs : List (List Row)) (sidx : List Nat) (names : List String) (het0 : Nat) :
     List (Nat × Nat) → List PairOut → List PairOut × Bool
   | [], acc => (acc.reverse, false)
   | (i, j) :: rest, acc =>
@@ -219,16 +219,16 @@ def runPairs (fix3 fix45 : Bool) (o : Opts) (tabs : List (List Row)) (sidx : Lis
     let ci := restrictCalls ti (sidx.getD i 0) [tj]
     let cj := restrictCalls tj (sidx.getD j 0) [ti]
     let sn := if o.ignoreName then names.getD i "" ++ "_" ++ names.getD j "" else names.getD i ""
-    match comparePair true true fix3 fix45 o.ploidy ci cj with
+    match comparePair true true fix3 fix45 fix46 o.ploidy ci cj with
     | none => ((⟨i, j, sn, het0, none⟩ :: acc).reverse, true)
-    | some r => runPairs fix3 fix45 o tabs sidx names het0 rest (⟨i, j, sn, het0, some r⟩ :: acc)
+    | some r => runPairs fix3 fix45 fix46 o tabs sidx names het0 rest (⟨i, j, sn, het0, some r⟩ :: acc)
 
-def runChrom (fix3 fix45 : Bool) (o : Opts) (files : List VFile) (tabsAll : List (List Table)) (names : List String)
+def runChrom (fix3 fix45 fix46 : Bool) (o : Opts) (files : List VFile) (tabsAll : List (List Table)) (names : List String)
     (c : String) : ChromOut :=
   let tabs := tabsAll.map (tableOf · c)
   let sidx := (files.zip names).map fun fn => sampleIndex fn.1 fn.2
   let het0 := ((tabs.headD []).filter fun r => rawHet (r.calls.getD (sidx.headD 0) dummyCall)).length
-  let (pairs, died) := runPairs fix3 fix45 o tabs sidx names het0 (allPairs files.length) []
+  let (pairs, died) := runPairs fix3 fix45 fix46 o tabs sidx names het0 (allPairs files.length) []
   let bedAll := pairs.flatMap fun p => match p.result with
     | some r => r.bed.map fun b => (b.1, b.2, p.i, p.j)
     | none => []
@@ -237,25 +237,25 @@ def runChrom (fix3 fix45 : Bool) (o : Opts) (files : List VFile) (tabsAll : List
   if decide (2 < files.length) && o.ploidy = 2 then
     let calls := (List.range files.length).map fun i =>
       restrictCalls (tabs.getD i []) (sidx.getD i 0) ((tabs.take i) ++ (tabs.drop (i + 1)))
-    match compareMultiway true calls with
+    match compareMultiway true fix46 calls with
     | some (total, hist) => ⟨c, pairs, bed, some (names.eraseDups, total, hist), false⟩
     | none => ⟨c, pairs, bed, none, true⟩
   else ⟨c, pairs, bed, none, false⟩
 
 /-- the chromosomes in sorted order until the run dies -/
-def runChroms (fix3 fix45 : Bool) (o : Opts) (files : List VFile) (tabsAll : List (List Table)) (names : List String) :
+def runChroms (fix3 fix45 fix46 : Bool) (o : Opts) (files : List VFile) (tabsAll : List (List Table)) (names : List String) :
     List String → List ChromOut
   | [] => []
   | c :: rest =>
-    let out := runChrom fix3 fix45 o files tabsAll names c
-    if out.died then [out] else out :: runChroms fix3 fix45 o files tabsAll names rest
+    let out := runChrom fix3 fix45 fix46 o files tabsAll names c
+    if out.died then [out] else out :: runChroms fix3 fix45 fix46 o files tabsAll names rest
 
 /-- `run_compare`: an error before anything is compared, or the per-chromosome outputs -/
-def runCompare (fix3 fix45 : Bool) (o : Opts) (files : List VFile) : Except RunError (List ChromOut) := do
+def runCompare (fix3 fix45 fix46 : Bool) (o : Opts) (files : List VFile) : Except RunError (List ChromOut) := do
   let names ← sampleNames o files
   let tabsAll ← files.mapM (readFile o)
   let chroms := commonChromosomes tabsAll
   if chroms.isEmpty then .error .noCommonChromosome
-  else pure (runChroms fix3 fix45 o files tabsAll names chroms)
+  else pure (runChroms fix3 fix45 fix46 o files tabsAll names chroms)
 
 end WhVerif.C11
